@@ -4,26 +4,42 @@ From Verif Require Import Base.Hex Base.Text Model.TryList Model.HandshakeAddr P
 Import ListNotations.
 Open Scope N_scope.
 
-Theorem legacy_address_thm (ba : option (bytes -> option bytes)) fw ct c vhost :
-  used_forwarding None fw = true ->
-  handshake_addr None ba spec_props_json fw ct c vhost
-  = Some (srv_addr c ++ [0] ++ host_str (remote c) ++ [0] ++ undashed (uuid c) ++ [0]
-          ++ json_array ((match props c with Some l => l | None => [] end) ++ appended fw ct c)).
-Proof. intro H. unfold handshake_addr. rewrite H. reflexivity. Qed.
-
-(* the code's address differs from the demanded one only on the recorded trigger *)
-Theorem impl_spec_address_thm ha ba fw ct c vhost :
-  trigger_null fw ct c = false ->
+(* today's code = the demanded behaviour, for every hook, mode, client type and input *)
+Theorem address_impl_is_spec ha ba fw ct c vhost :
   handshake_addr ha ba impl_props_json fw ct c vhost = handshake_addr ha ba spec_props_json fw ct c vhost.
 Proof.
-  intro H. unfold handshake_addr. rewrite (impl_eq_spec_off_trigger fw ct c H). reflexivity.
+  unfold handshake_addr. rewrite (props_json_impl_is_spec fw ct c). reflexivity.
 Qed.
 
-(* outside the forwarding path the JSON printer is irrelevant *)
-Theorem impl_spec_host_path_thm ha ba fw ct c vhost :
-  used_forwarding ha fw = false ->
-  handshake_addr ha ba impl_props_json fw ct c vhost = handshake_addr ha ba spec_props_json fw ct c vhost.
-Proof. intro H. unfold handshake_addr. rewrite H. reflexivity. Qed.
+Theorem legacy_address_thm (ba : option (bytes -> option bytes)) fw ct c vhost :
+  used_forwarding None fw = true ->
+  handshake_addr None ba impl_props_json fw ct c vhost
+  = Some (srv_addr c ++ [0] ++ host_str (remote c) ++ [0] ++ undashed (uuid c) ++ [0]
+          ++ json_array ((match props c with Some l => l | None => [] end) ++ appended fw ct c)).
+Proof.
+  intro H. rewrite address_impl_is_spec. unfold handshake_addr. rewrite H. reflexivity.
+Qed.
+
+Theorem impl_four_parts_thm fw ct c :
+  nz (srv_addr c) = true -> nz (host_str (remote c)) = true ->
+  split_nul (forwarding_address (impl_props_json fw ct c) c)
+  = [srv_addr c; host_str (remote c); undashed (uuid c); json_array (props_list fw ct c)].
+Proof. rewrite props_json_impl_is_spec. apply four_parts_thm. Qed.
+
+Theorem impl_legacy_parse_thm fw ct c :
+  nz (srv_addr c) = true -> nz (host_str (remote c)) = true ->
+  forallb property_transparent (props_list fw ct c) = true ->
+  bungee_parse (forwarding_address (impl_props_json fw ct c) c)
+  = Some (srv_addr c, host_str (remote c), undashed (uuid c), props_list fw ct c).
+Proof. rewrite props_json_impl_is_spec. apply legacy_parse_thm. Qed.
+
+(* PRE-fix code (before 5dc4db8): its address differed from the demanded one only on the trigger *)
+Theorem prefix_spec_address_thm ha ba fw ct c vhost :
+  trigger_null fw ct c = false ->
+  handshake_addr ha ba prefix_props_json fw ct c vhost = handshake_addr ha ba spec_props_json fw ct c vhost.
+Proof.
+  intro H. unfold handshake_addr. rewrite (prefix_eq_spec_off_trigger fw ct c H). reflexivity.
+Qed.
 
 (* a hook that appends NUL-separated data (Floodgate style) satisfies the host-first premise *)
 Example append_hook_keeps d x : first_part ((fun y => y ++ 0 :: d) x) = first_part x.
@@ -38,7 +54,7 @@ Example host_first_nonvacuous :
   let ba := Some (fun y : bytes => Some (y ++ [0; 121])) in
   let c := mkCtx [98;58;49] [49;46;50;46;51;46;52;58;53] [] None (v ++ [58;50;53]) in
   used_forwarding ha FwLegacy = false /\
-  server_address ha ba spec_props_json FwLegacy CtModernForge c = Some (h ++ [0;70;77;76;51;0]) /\
+  server_address ha ba impl_props_json FwLegacy CtModernForge c = Some (h ++ [0;70;77;76;51;0]) /\
   player_vhost c = v.
 Proof. vm_compute. repeat split; reflexivity. Qed.
 
